@@ -217,6 +217,43 @@ def run(facts, rep, tier, ctx):
                 k += 1
                 rep.ob("R08.5", o["fn"], d, o["ok"], o["detail"], o["loc"])
         rep.floor("copy_file obligations on the physical backend (%s)" % w.tag, k, 2)
+    # R08.8 the write layer is the caller's first layer: the constructor stores the layer slice as given (no filtering,
+    # re-ordering or dropping of layers — a dropped first layer silently turns the second one into the write layer)
+    from ..terms import get_tracer as _gt
+    from ..panics import norm as _norm
+    for w in (ws, wa):
+        if not w.present():
+            continue
+        ctors = [b for b in facts.bodies if b.kind != "Closure" and b.impl and b.impl["self_ty"] == w.overlay and b.impl["trait"] is None and
+                 any(st.kind == "assign" and st.rv.kind == "agg" and st.rv.agg.get("adt") == w.overlay for blk in b.blocks for st in blk.stmts)]
+        for b in ctors:
+            tr = _gt(facts, b)
+            for blk in b.blocks:
+                if blk.cleanup:
+                    continue
+                for st in blk.stmts:
+                    if st.kind == "assign" and st.rv.kind == "agg" and st.rv.agg.get("adt") == w.overlay:
+                        v = _norm(tr.rvalue(st.rv, frozenset()))
+                        lay = None
+                        for f_, t_ in v[3]:
+                            tyf = next((x["ty"] for a in [facts.adts.get(w.overlay)] if a for vv in a["variants"] for x in vv["fields"] if x["name"] == f_), "")
+                            if "Vec<" in tyf:
+                                lay = t_
+                        x = lay
+                        okl = False
+                        for _ in range(4):
+                            if x is None:
+                                break
+                            if x[0] == "arg" and x[1] == 0:
+                                okl = True
+                                break
+                            if x[0] == "call" and x[1] in ("slice::to_vec", "ToOwned::to_owned", "Into::into", "From::from", "Vec::from", "Clone::clone") and x[2]:
+                                x = _norm(x[2][0])
+                                continue
+                            break
+                        rep.ob(("A/" if w.asyncw else "") + "R08.8", b.id, "constructor stores the layers as given", okl,
+                               "" if okl else "the stored layer list is %s, not the argument itself: layers can be dropped or re-ordered, so "
+                               "writes can land in what the caller passed as a lower layer" % fmt(lay)[:60] if lay is not None else "?", st.line)
     # R08.7 the path layer's native fast paths run only when source and destination are the same filesystem instance:
     # otherwise a copy-up (resolved lower path -> upper path) would call the *lower layer's* own copy_file/move_file
     # with the destination string, i.e. write into the lower layer
